@@ -706,8 +706,15 @@ func c12Run(t *testing.T, cfg c12Config) c12Outcome {
 				}
 				break
 			}
-			if err := echoBoth(ctx, conn, sc); err != nil {
-				fail(keyScen+":echo-after-silence", "%v", err)
+			// ... and the connection is usable in the other direction as well
+			if _, err := csB.Write([]byte{10}); err != nil {
+				fail(keyScen+":echo-after-silence", "client write: %v", err)
+				break
+			}
+			ssB.SetReadDeadline(time.Now().Add(5 * time.Second))
+			if _, err := io.ReadFull(ssB, make([]byte, 1)); err != nil {
+				fail(keyScen+":echo-after-silence", "server read: %v", err)
+				break
 			}
 			alive("after the exchange that followed the silence")
 		}
@@ -852,7 +859,7 @@ func TestVerifC12(t *testing.T) {
 				}
 			}
 		}
-		return cfgs, fmt.Sprintf("%d generated transport-parameter lists (baseline + one limit at a time over {absent, 0, small, Config default -1/0/+1, large}) x the boundary scenario of that limit x user Configs; 7 built-in fingerprints x %d boundary scenarios (slow reader per stream type and per connection, maximum concurrent streams, connection ID issuance, DATAGRAM at the advertised size, silence just below the advertised idle timeout) x user Configs {zero, small/large windows, datagrams on, idle 1s/5s/5min, few / refused (-1) / 2^20 streams, keep-alive, no MTU discovery}%s", len(gens), len(c12Scenarios), map[bool]string{true: "", false: " (window scenarios of the built-in fingerprints with the zero Config only)"}[e.Thorough()])
+		return cfgs, fmt.Sprintf("%d generated transport-parameter lists (baseline + one limit at a time over {absent, 0, small, Config default -1/0/+1, large}) x the boundary scenario of that limit x user Configs; 7 built-in fingerprints x %d boundary scenarios (slow reader per stream type and per connection, maximum concurrent streams, connection ID issuance, DATAGRAM at the advertised size, silence just below the advertised idle timeout counted from the last packet the client received, and - idle-send - from the first ack-eliciting packet it sent since: the path towards the client goes dark, the application does one of {nothing, write, write 2 packets, close, reset, stop-sending, open a bidirectional / unidirectional stream, send a DATAGRAM} a quarter / half / all but 600 ms into its idle period, the peer answers 500 ms before the advertised period counted from the restart the wire shows is over) x user Configs {zero, small/large windows, datagrams on, idle 1s/5s/5min, few / refused (-1) / 2^20 streams, keep-alive, no MTU discovery}%s", len(gens), len(c12Scenarios), map[bool]string{true: "", false: " (window scenarios of the built-in fingerprints with the zero Config only; idle-send of the built-in fingerprints with the Configs zero, idle 5s, keep-alive, idle 1s without MTU discovery)"}[e.Thorough()])
 	}
 	part := explore.Part{Name: "limits"}
 	part.Run = func(e explore.Env) *explore.Report {
